@@ -24,7 +24,7 @@ PROP = dict(
     )
 
 MANIFEST = dict(
-    level_text="Generation-2 Dutch auction (x/auctionsV2) modelled statement by statement with exact sdk.Dec arithmetic. Proved for all inputs: the posted price is non-increasing between restarts, at most the start price and non-negative; totals over any bid/tick history (paid <= target debt, received <= collateral); per-bid amounts; Proved for every closing bid without exception class: close completeness per initiator type incl. the external keeper incentive, and that the app reserve is debited exactly the shortfall, only when it covers it, and stays backed. The end-price clause is proved refuted (truncated time-to-zero, known finding C10-F1) and proved on the complement of the executable class. The two further defects found on the original tree (reserve top-up silently skipped: C10-F2; external close panics on the empty keeper address: C10-F3) are repaired by fixes/C10-F2 and fixes/C10-F3; the model follows the repaired code, their witnesses stay in the harness corpus and as Examples, and a recurrence is reported as a plain violation. The model is tied to /repo by a differential run of the real liquidation path, MsgPlaceMarketBid and auctionsV2.BeginBlocker on every check.",
+    level_text="Generation-2 Dutch auction (x/auctionsV2) modelled statement by statement with exact sdk.Dec arithmetic. Proved for all inputs: the posted price is non-increasing between restarts, at most the start price and non-negative; totals over any bid/tick history (paid <= target debt, received <= collateral); per-bid amounts. Proved for every closing bid without exception class: close completeness per initiator type incl. the external keeper incentive, and that the app reserve is debited exactly the shortfall, only when it covers it, and stays backed. The end-price clause is proved refuted (truncated time-to-zero, known finding C10-F1) and proved on the complement of the executable class. The two further defects found on the original tree (reserve top-up silently skipped: C10-F2; external close panics on the empty keeper address: C10-F3) are repaired by fixes/C10-F2 and fixes/C10-F3; the model follows the repaired code, their witnesses stay in the harness corpus and as Examples, and a recurrence is reported as a plain violation. The model is tied to /repo by a differential run of the real liquidation path, MsgPlaceMarketBid and auctionsV2.BeginBlocker on every check.",
     design_ref="DESIGN.md section 4 C10",
     level_note="Trusted: Coq kernel, extraction (ExtrOcamlBasic), OCaml runner, Go harness. Generation 1 (x/auction) is modelled for the price function and the bid arithmetic only. No axioms (Closed under the global context).",
     technique="Coq proof (monotonicity of Dec arithmetic, invariants by induction over bid/tick histories) + model/implementation correspondence run",
